@@ -171,6 +171,7 @@ impl Report {
         // keyed records: exact attribution one by one
         let mut unlisted_keyed: BTreeMap<String, (u64, ViolRecord)> = BTreeMap::new();
         let mut keyed_kinds: BTreeSet<String> = BTreeSet::new();
+        let mut dump: Vec<(String, String)> = vec![];
         for r in keyed {
             keyed_kinds.insert(r.kind.clone());
             let k = r.kf_key.clone().unwrap();
@@ -180,6 +181,7 @@ impl Report {
                     self.known_hits.entry(f.id.clone()).or_default().insert(k);
                 }
                 None => {
+                    dump.push((k.clone(), r.kind.clone()));
                     let e = unlisted_keyed.entry(r.kind.clone()).or_insert_with(|| (0, r.clone()));
                     e.0 += 1;
                     if r.depth < e.1.depth {
@@ -193,6 +195,15 @@ impl Report {
                 continue; // handled above, record by record
             }
             self.unlisted.push((job.to_string(), r, n));
+        }
+        if let Ok(p) = std::env::var("VERIF_DUMP_KEYS") {
+            // diagnostic only (used to prepare known_findings.json by hand; never read back)
+            use std::io::Write;
+            if let Ok(mut f) = std::fs::OpenOptions::new().create(true).append(true).open(&p) {
+                for (k, kind) in &dump {
+                    let _ = writeln!(f, "{}\t{}\t{}", self.prop, kind, k);
+                }
+            }
         }
         for (_, (n, r)) in unlisted_keyed {
             self.unlisted.push((job.to_string(), r, n));
